@@ -288,6 +288,12 @@ class C13(Check):
                 for a in op["roots"]:
                     a["st"] = "abs" if a["st"] == "name" else a["st"]
                 reads.append(op)
+            if f["k"] == "stray" and len(stray_paths) == 1 and not stray_paths[0].endswith("/") and (stray_paths[0].endswith(".dsdl") or stray_paths[0].endswith(".uavcan")):
+                # the odd entry handed to read_files() as a TARGET (another entry point, same contract)
+                sp = stray_paths[0]
+                reads.append({"op": "rf", "files": [{"p": sp, "st": rng.choice(["abs", "dd"]), "ty": rng.choice("sp")}],
+                              "roots": [{"p": ws["roots"][hot_root]["dir"], "st": rng.choice(["abs", "name"]), "ty": rng.choice("sp")}],
+                              "lookups": [{"p": r0["dir"]} for i0, r0 in enumerate(ws["roots"]) if i0 != hot_root], "key": None, "cwd": "", "allow_unreg": True})
             all_files = {uni.file_of(k) for k in uni.defs} | set(stray_paths)
             recovery = dict(reads[0])
             offending = None
